@@ -140,3 +140,121 @@ func Rel(steps ...Step) Path { return Path{Steps: steps} }
 func AbsP(steps ...Step) Path { return Path{Abs: true, Steps: steps} }
 
 func Fn(name string, args ...Expr) Call { return Call{Name: name, Args: args} }
+
+// RenderAbbrev prints the same tree with the abbreviated syntax wherever XPath
+// 1.0 offers one: child:: is omitted, attribute:: becomes @, self::node() is
+// '.', parent::node() is '..', and /descendant-or-self::node()/ is '//'.
+// Binary operators are parenthesised as in Render.
+func RenderAbbrev(e Expr) string {
+	switch e := e.(type) {
+	case Neg:
+		return "-" + abbrevOperand(e.X)
+	case Bin:
+		return abbrevOperand(e.L) + " " + e.Op + " " + abbrevOperand(e.R)
+	case Call:
+		parts := make([]string, len(e.Args))
+		for k, a := range e.Args {
+			parts[k] = RenderAbbrev(a)
+		}
+		name := e.Name
+		if e.Prefix != "" {
+			name = e.Prefix + ":" + name
+		}
+		return name + "(" + strings.Join(parts, ", ") + ")"
+	case Filter:
+		s := abbrevPrimary(e.Primary)
+		for _, p := range e.Preds {
+			s += "[" + RenderAbbrev(p) + "]"
+		}
+		return s
+	case Path:
+		return abbrevPath(e)
+	}
+	return Render(e)
+}
+
+func abbrevPrimary(e Expr) string {
+	switch e.(type) {
+	case Num, Str, Var, Call:
+		return RenderAbbrev(e)
+	}
+	return "(" + RenderAbbrev(e) + ")"
+}
+
+func abbrevOperand(e Expr) string {
+	switch e.(type) {
+	case Bin, Neg:
+		return "(" + RenderAbbrev(e) + ")"
+	}
+	return RenderAbbrev(e)
+}
+
+func isDOS(st Step) bool {
+	return st.Fn == nil && st.Axis == "descendant-or-self" && st.Test.Kind == TNode && len(st.Preds) == 0
+}
+
+func abbrevStep(st Step) string {
+	if st.Fn != nil {
+		return RenderAbbrev(*st.Fn)
+	}
+	if st.Test.Kind == TNode && len(st.Preds) == 0 {
+		switch st.Axis {
+		case "self":
+			return "."
+		case "parent":
+			return ".."
+		}
+	}
+	s := ""
+	switch st.Axis {
+	case "child":
+	case "attribute":
+		s = "@"
+	default:
+		s = st.Axis + "::"
+	}
+	s += RenderTest(st.Test)
+	for _, p := range st.Preds {
+		s += "[" + RenderAbbrev(p) + "]"
+	}
+	return s
+}
+
+func abbrevPath(p Path) string {
+	var sb strings.Builder
+	steps := p.Steps
+	needSep := false
+	if p.Start != nil {
+		if f, ok := p.Start.(Filter); ok {
+			sb.WriteString(RenderAbbrev(f))
+		} else {
+			sb.WriteString(abbrevPrimary(p.Start))
+		}
+		needSep = true
+	} else if p.Abs {
+		if len(steps) == 0 {
+			return "/"
+		}
+		if isDOS(steps[0]) && len(steps) > 1 {
+			sb.WriteString("//")
+			steps = steps[1:]
+		} else {
+			sb.WriteString("/")
+		}
+	}
+	for k := 0; k < len(steps); k++ {
+		st := steps[k]
+		if needSep {
+			if isDOS(st) && k+1 < len(steps) {
+				sb.WriteString("//")
+				k++
+				st = steps[k]
+			} else {
+				sb.WriteString("/")
+			}
+		}
+		sb.WriteString(abbrevStep(st))
+		needSep = true
+	}
+	return sb.String()
+}
